@@ -67,6 +67,10 @@ fn gen_iter_body(ctx: &Context, rng: &mut Rng) -> Option<(Graph, Type, Type)> {
 }
 
 pub fn gen_mpc(rng: &mut Rng, min_ops: u64, max_ops: u64) -> MpcProg {
+    gen_mpc_opts(rng, min_ops, max_ops, false)
+}
+
+pub fn gen_mpc_opts(rng: &mut Rng, min_ops: u64, max_ops: u64, allow_truncate: bool) -> MpcProg {
     let ctx = create_context().unwrap();
     let mut callees = vec![];
     let mut iter_callees = vec![];
@@ -84,6 +88,7 @@ pub fn gen_mpc(rng: &mut Rng, min_ops: u64, max_ops: u64) -> MpcProg {
     let mut b = B::new(g.clone(), rng, Flavor::Mpc);
     b.callees = callees.clone();
     b.iter_callees = iter_callees.clone();
+    b.allow_truncate = allow_truncate;
     let n_in = b.rng.range(1, 4);
     let base_st = *b.rng.pick(&ALL_ST);
     let mut input_types = vec![];
